@@ -56,6 +56,9 @@ var props = map[string]propSpec{
 	"C06": {Sched: true, Level: "model_checking",
 		Rule:        "schedule part: every schedule (within the stated preemption bound; all interleavings in the thorough tier) of Close(1000) against a reader that may be the one to receive the peer's echo (explicit Reader loop, CloseRead, none), a peer that echoes and optionally ends its transport, an optional pinger; and of {Close, CloseNow, Close, late CloseNow} call orders; both roles",
 		Assumptions: commonSched},
+	"C09": {Sched: true, Level: "model_checking",
+		Rule:        "every schedule within (P preemptions, T early timer firings) of each combination adversary{silent, stall after k header bytes, stall after k payload bytes, one data message then silent, flood at 1 frame per virtual second, half-close, echo at +4.9s/+5.1s} x local state{idle, reader blocked, message half read, CloseRead active, CloseRead + data message, writer blocked on a zero window, Ping waiting} x {Close, CloseNow} x role, in virtual time; oracle: Close returns within 10.5 virtual seconds, CloseNow within 1, no deadlock, blocked calls return, CloseRead context done within 1 virtual second of the transport close",
+		Assumptions: append([]string{"virtual time: timers fire when nothing else can run, or early as a counted deviation (T); durations measured are virtual"}, commonSched...)},
 	"C16": {Sched: true, Level: "model_checking",
 		Rule:        "every schedule (within the stated preemption bound) of writers / a streaming Writer / a pinger against a local Close (peer echo early, late, never), a peer-initiated Close, and error-triggered Close frames (protocol violation, read limit, CloseRead policy violation) on one Conn over vpipe, both roles; oracle on the outbound byte log: after the first Close frame no data frame, no second Close frame; an outcome is the opcode sequence on the wire",
 		Assumptions: commonSched},
